@@ -379,11 +379,14 @@ import numpy as np
 warnings.simplefilter('ignore')
 classes = %(classes)r
 class Alarm(BaseException): pass
-def handler(*a): raise Alarm()
+FIRED = [False]
+def handler(*a):
+    FIRED[0] = True          # the exception may be swallowed inside a SciPy callback: the flag is authoritative
+    raise Alarm()
 signal.signal(signal.SIGALRM, handler)
 fails = []; done = 0; skipped = []
 for key in classes:
-    mod, cls = key.split(':')
+    mod, cls = key.split(':'); FIRED[0] = False; nfail = len(fails)
     try:
         C = getattr(importlib.import_module(mod), cls)
         signal.alarm(%(per)d)
@@ -426,12 +429,15 @@ for key in classes:
         done += 1; signal.alarm(0)
     except Alarm: skipped.append(key + ' (timeout)')
     except Exception as e: skipped.append(key + ' (' + type(e).__name__ + ')'); signal.alarm(0)
+    if FIRED[0]:
+        del fails[nfail:]
+        if not any(q.startswith(key) for q in skipped): skipped.append(key + ' (timeout)')
 print(json.dumps({'reproduced': bool(fails), 'failures': fails[:10], 'classes_checked': done, 'skipped': skipped}))
 '''
 
 
 def bounded_unit(chunk, idx, tier):
-    r_ = native.run_script(BOUNDED % dict(classes=chunk, per=12 if tier == 'quick' else 300), timeout=3000)
+    r_ = native.run_script(BOUNDED % dict(classes=chunk, per=25 if tier == 'quick' else 300), timeout=3000)
     out = {'obligations': [], 'functions': [], 'engine_errors': [], 'bounded': []}
     if r_.get('result') is None:
         out['engine_errors'].append('bounded check did not run: ' + (r_.get('stderr_tail') or '')[-300:]); return out
